@@ -71,6 +71,7 @@ class StmtParser(ExprParser):
     def _locking(self):
         while True:
             if self.at_kw('FOR') and self.peek_kw(1, 'UPDATE', 'SHARE'):
+                self.saw_locking = True
                 self.adv()
                 if self.adv().u == 'UPDATE':
                     self.saw_for_update = True
@@ -84,6 +85,7 @@ class StmtParser(ExprParser):
                     self.adv()
                     self.expect_kw('LOCKED')
             elif self.at_kw('LOCK') and self.peek_kw(1, 'IN'):
+                self.saw_locking = True
                 self.adv()
                 self.adv()
                 self.expect_kw('SHARE')
